@@ -326,13 +326,18 @@ func (m *Manager) newStream(ctx context.Context, sid uint64, kind, rpc string) (
 	}
 
 	stream := drpcstream.NewWithOptions(ctx, sid, m.wr, opts)
+
+	// publish the stream before handing it to manageStreams: once it is handed
+	// over, a soft cancel may release the semaphore, and the next stream must
+	// find this one as its predecessor (to wait for it and to pick its id).
+	drpcdebug.Event(m, "stream.new.begin", sid)
+	m.sbuf.Set(stream)
+	drpcdebug.Event(m, "stream.new.end", sid)
+
 	drpcdebug.Event(m, "stream.new.offer", sid)
 	select {
 	case m.streams <- streamInfo{ctx: ctx, stream: stream}:
 		drpcdebug.Point("manager.newStream.handoff")
-		drpcdebug.Event(m, "stream.new.begin", sid)
-		m.sbuf.Set(stream)
-		drpcdebug.Event(m, "stream.new.end", sid)
 		m.log("STREAM", stream.String)
 		return stream, nil
 
